@@ -251,12 +251,23 @@ def _real_symmetric(rng, n):
             cases += 1
             if bad:
                 fails.append(dict(input=dict(system=name, NK=NK, NKFFT=NKFFT), clause="irreducible K-points + symmetrisation = full grid", failed=bad[:4]))
+            if name.startswith("Haldane"):
+                # the tetrahedron method: the decomposition of the K-point cell into tetrahedra (one fixed main diagonal) is not invariant under the
+                # rotations of the group, so band weights of symmetry-equivalent K-points differ at the discretisation level (recorded known finding K2)
+                mkt = lambda: {"cumdos_tetra": calc.static.CumDOS(Efermi=Ef, tetra=True)}
+                a = wb.run(system, grid=grid, calculators=mkt(), adpt_num_iter=0, use_irred_kpt=True, symmetrize=True, print_Kpoints=False).results["cumdos_tetra"].data
+                b = wb.run(system, grid=grid, calculators=mkt(), adpt_num_iter=0, use_irred_kpt=False, symmetrize=False, print_Kpoints=False).results["cumdos_tetra"].data
+                cases += 1
+                if float(abs(a - b).max()) > 1e-9:
+                    fails.append(dict(input=dict(system=name, NK=NK, NKFFT=NKFFT, case="haldane-C3z/tetra-cumdos-only"), clause="tetrahedron CumDOS: irreducible K-points + symmetrisation = full grid",
+                                      failed=["cumdos (tetra=True) differs by %.2e" % float(abs(a - b).max())]))
     return dict(cases=cases, failures=fails, distinct=cases)
 
 
 def _replay_real(mv, ob):
     import random
     r = _real_symmetric(random.Random(1), 10)
+    r["failures"] = [f_ for f_ in r["failures"] if f_["input"].get("case") != "haldane-C3z/tetra-cumdos-only"]          # the recorded known finding replays nothing
     return dict(reproduced=bool(r["failures"]), input="installed run(): use_irred_kpt + symmetrize against the full grid on Haldane (C3z) and random TR / inversion symmetric models", failed=r["failures"][:3])
 
 
